@@ -396,7 +396,8 @@ def replay_obligation(reg, mod, rec):
     finally:
         sym._CTX[0] = None
         sym.REPLAY_TOL = old_tol
-    want = rec['obligation'].split('/', 1)[1] if '/' in rec['obligation'] else rec['obligation']
+    prefix = '%s%s/' % (cname, '[%s]' % cfgname if cfgname else '')
+    want = rec['obligation'][len(prefix):] if rec['obligation'].startswith(prefix) else rec['obligation']
     import re
     want = re.sub(r'/(step\d+|pointwise|same-length)$', '', want)     # sub-steps replay as their parent clause
     hits = [r for r in ctx.results if r[0] == want]
